@@ -8,4 +8,4 @@ mkdir -p /verif/_build/extract
 cd /verif/_build/extract
 cp /verif/coq/Extract/Extract.v /verif/ocaml/driver.ml .
 timeout 600 coqc -Q /verif/coq/Model Sodium -Q /verif/coq/Spec Sodium Extract.v
-ocamlfind ocamlopt -O3 -w -a model.mli model.ml driver.ml -o model_run 2>&1 | grep -v "options -O3" || true
+ocamlfind ocamlopt -package str -linkpkg -O3 -w -a model.mli model.ml driver.ml -o model_run 2>&1 | grep -v "options -O3" || true
